@@ -1,5 +1,5 @@
 (** Case types and checkers for the C07 / C08 correspondence runs (vm_compute, ZI instance). *)
-From Qib Require Export TN.TNTree Base.Inst.
+From Qib Require Export TN.TNTree TN.TNTreeCheckDef Base.Inst.
 Local Open Scope Z_scope.
 
 Definition tdesc := (Z * (Z * list nat * list Z * Z))%type.   (* key, (tid, shape, bids, dataref code) *)
@@ -165,6 +165,8 @@ Definition check (c : case) : bool :=
           && match dense with
              | None => true
              | Some f => dense_eqb (dense_of (to_full_tensor (r_val r) (r_amap r))) f
+                         (* translation validation: the verified checker accepts this tree *)
+                         && check_root n (r_tree r) (r_amap r)
              end
       | _, _ => false
       end
